@@ -26,13 +26,14 @@ ArgSets == { <<"int">>, <<"ArgS">>, <<"int", "string">> }
 
 \* ---- destination paths
 DstPaths(d) == PathsBelow(<< >>, d, 3)
-Targets(d) == {p \in DstPaths(d) : p \in {<<"A">>, <<"B">>, <<"C">>, <<"N">>, <<"N", "X">>, <<"S">>, <<"D", "K">>, <<"X", "X">>, <<"I", "Y">>, <<"Z">>, <<"H", "K">>, <<"D", "In", "X">>, <<"D", "In">>}}
+Targets(d) == {p \in DstPaths(d) : p \in {<<"A">>, <<"B">>, <<"C">>, <<"N">>, <<"N", "X">>, <<"S">>, <<"D", "K">>, <<"X", "X">>, <<"I", "Y">>, <<"Z">>, <<"H", "K">>, <<"D", "In", "X">>, <<"D", "In">>, <<"Ac", "Profile", "Age">>, <<"M", "Profile", "Email">>, <<"Ac", "Anon", "Shown">>}}
           \cup {<<"Nowhere">>}                      \* a path that names nothing: inert
 LowerPath(p) == [i \in DOMAIN p |-> Lower(p[i])]
 
 SkipNotes(d) == {SkipN("exact", p) : p \in DstPaths(d)} \cup {SkipN("exact", LowerPath(p)) : p \in Targets(d)}
                 \cup {SkipN("prefix", <<"N">>), SkipN("prefix", <<"n">>), SkipN("suffix", <<"X">>), SkipN("suffix", <<"a">>), SkipN("exact", <<"Nowhere">>),
                  \* patterns that also match members the generated package cannot see (they must stay unmentioned)
+                 SkipN("tail", <<"X">>), SkipN("tail", <<"K">>), SkipN("tail", <<"k">>),
                  SkipN("suffix", <<"y">>), SkipN("suffix", <<"s">>), SkipN("suffix", <<"w">>), SkipN("prefix", <<"X">>), SkipN("prefix", <<"H">>)}
 \* :map / :conv / :literal name their destination exactly, whatever the case rule: a path that differs in case names nothing
 CaseVariants(d) == {LowerPath(p) : p \in Targets(d) \cap {<<"A">>, <<"N", "X">>, <<"D", "K">>}}
@@ -58,6 +59,7 @@ PairNotes(d) == UNION {{<<SkipN("exact", q), n>> : q \in {n.dst, Parent(n.dst)} 
            \cup {<<n, SkipN("exact", n.dst)>> : n \in Small(d)}
            \cup {<<n, m>> \in Small(d) \X Small(d) : n # m /\ (n.dst = m.dst \/ StrictPrefix(n.dst, m.dst))}
            \cup {<<SkipN("suffix", <<"X">>), n>> : n \in Small(d)}
+           \cup {<<SkipN("tail", <<"X">>), n>> : n \in Small(d)}
 
 Opts == [case: BOOLEAN, getter: BOOLEAN, stringer: {FALSE}, typecast: BOOLEAN, rule: {"name"}]
     \cup {[case |-> TRUE, getter |-> TRUE, stringer |-> TRUE, typecast |-> FALSE, rule |-> "name"],
